@@ -594,7 +594,10 @@ if not globals().get("VX_NO_REUSE"):     # reuse is never transitive: the other 
 for _u in _c10["UNITS"]:
     # pool.create_thread / pool.create_work (added after seeded change C19-7 was missed): the submission gate of the pool --
     # work handed to a pool while some of its workers are suspended is accepted (postcondition 'refused => no worker threads')
-    if _u.name in ("lpq.create_thread", "lpq.schedule_thread", "lpq.schedule_thread_last", "pool.create_thread", "pool.create_work"):
+    # steal.lpq.wait_or_add_new (added after seeded change C19-8 was missed): a worker that was told to suspend still converts the tasks
+    # staged on its OWN queues (postcondition "one of its own queues is polled in every call, whatever `running` says")
+    if _u.name in ("lpq.create_thread", "lpq.schedule_thread", "lpq.schedule_thread_last", "pool.create_thread", "pool.create_work",
+                   "steal.lpq.wait_or_add_new"):
         _u.name = "c10." + _u.name
         _u.template = "../C10/" + _u.template
         UNITS.append(_u)
